@@ -22,44 +22,45 @@ type Clause struct {
 }
 
 type Contract struct {
-	Pkg        string // package path
-	FuncName   string // "ResolveIndex" or "(*List).Pop" or "(Int).X"
-	Props      []string
-	Mode       string // "int" (default) or "bv"
-	Requires   []*Clause
-	Ensures    []*Clause
-	Assumes    []*Clause    // assumed facts about the inputs (not required of callers; listed in evidence)
-	Commutes   []CommuteReq // map-range loops with a commutativity obligation
-	SortBy     []*Clause    // sortby <k>: expr - meaning of the less closure of the k-th sort.Slice / sort.SliceStable call (Loop = k)
-	Carve      *Clause      // known-finding carve-out: every obligation is split into (cond ==> goal) and (!cond ==> goal)
-	CaseAll    bool         // the case split applies to every obligation of the unit, not only postconditions
-	Cases      []*Clause    // case split of postcondition obligations (conditions over the entry state)
-	GhostEns   []*Clause    // ghost-defining postconditions: assumed at call sites, not proof obligations
-	Invs       []*Clause
-	Modifies   []*Clause
-	HasMod     bool     // a modifies clause (possibly empty) was given
-	ModComps   []string // coarse frame: every location of the components with these name prefixes may change
-	Safety     bool     // generate and claim safety obligations
-	Overflow   bool     // generate and claim overflow obligations (mode int)
-	Inline     bool     // callers inline the body instead of using the contract
-	Trusted    bool     // contract is assumed (body not verified)
-	Dispatch   []string
-	Lets       []*LetDef
-	External   bool     // contract on a function outside the module (always assumed)
-	UF         bool     // external: result is an uninterpreted function of the arguments
-	Params     []string // external: parameter names
-	Results    []string // external / override: result names
-	Uses       []string // named axioms assumed in this unit
-	Strict     []string // package paths: calls into them must have a contract
-	Split      []string // interface parameters whose dynamic type is case-split in postcondition obligations
-	Expand     []string // callee names whose contract is ignored in this unit (body inlined instead)
-	NoContract []string // callee names whose contract is ignored in this unit (call is fully havocked)
-	NoInline   []string // callee names never inlined in this unit
-	Witness    string
-	Havoc      []string // callees whose call is treated as result-only havoc
-	InlineAll  bool
-	Unroll     int
-	Pos        string
+	Pkg         string // package path
+	FuncName    string // "ResolveIndex" or "(*List).Pop" or "(Int).X"
+	Props       []string
+	Mode        string // "int" (default) or "bv"
+	Requires    []*Clause
+	Ensures     []*Clause
+	Assumes     []*Clause    // assumed facts about the inputs (not required of callers; listed in evidence)
+	Commutes    []CommuteReq // map-range loops with a commutativity obligation
+	SortBy      []*Clause    // sortby <k>: expr - meaning of the less closure of the k-th sort.Slice / sort.SliceStable call (Loop = k)
+	Carve       *Clause      // known-finding carve-out: every obligation is split into (cond ==> goal) and (!cond ==> goal)
+	CaseAll     bool         // the case split applies to every obligation of the unit, not only postconditions
+	Cases       []*Clause    // case split of postcondition obligations (conditions over the entry state)
+	GhostEns    []*Clause    // ghost-defining postconditions: assumed at call sites, not proof obligations
+	Invs        []*Clause
+	Modifies    []*Clause
+	HasMod      bool     // a modifies clause (possibly empty) was given
+	AssumeFrame bool     // assumeframe: the modifies/modcomps frame is assumed, not proved (listed in evidence)
+	ModComps    []string // coarse frame: every location of the components with these name prefixes may change
+	Safety      bool     // generate and claim safety obligations
+	Overflow    bool     // generate and claim overflow obligations (mode int)
+	Inline      bool     // callers inline the body instead of using the contract
+	Trusted     bool     // contract is assumed (body not verified)
+	Dispatch    []string
+	Lets        []*LetDef
+	External    bool     // contract on a function outside the module (always assumed)
+	UF          bool     // external: result is an uninterpreted function of the arguments
+	Params      []string // external: parameter names
+	Results     []string // external / override: result names
+	Uses        []string // named axioms assumed in this unit
+	Strict      []string // package paths: calls into them must have a contract
+	Split       []string // interface parameters whose dynamic type is case-split in postcondition obligations
+	Expand      []string // callee names whose contract is ignored in this unit (body inlined instead)
+	NoContract  []string // callee names whose contract is ignored in this unit (call is fully havocked)
+	NoInline    []string // callee names never inlined in this unit
+	Witness     string
+	Havoc       []string // callees whose call is treated as result-only havoc
+	InlineAll   bool
+	Unroll      int
+	Pos         string
 }
 
 type LetDef struct {
@@ -252,7 +253,7 @@ func parseCExpr(text string) (ast.Expr, string, error) {
 }
 
 var clauseKeywords = map[string]bool{
-	"func": true, "props": true, "ghostensures": true, "case": true, "assume": true, "carve": true, "caseall": true, "commute": true, "sortby": true, "mode": true, "requires": true, "ensures": true, "invariant": true,
+	"func": true, "props": true, "ghostensures": true, "case": true, "assume": true, "carve": true, "caseall": true, "commute": true, "sortby": true, "assumeframe": true, "mode": true, "requires": true, "ensures": true, "invariant": true,
 	"modifies": true, "safety": true, "overflow": true, "inline": true, "trusted": true, "dispatch": true,
 	"let": true, "spec": true, "external": true, "uf": true, "params": true, "results": true,
 	"global": true, "noinline": true, "nocontract": true, "expand": true, "split": true, "strictpkgs": true, "modcomps": true, "axiom": true, "uses": true, "scan": true, "witness": true, "havoc": true, "inlineall": true, "unroll": true,
@@ -466,6 +467,8 @@ func (cs *ContractSet) parseContractSource(pkgPath, filename string, src []byte)
 						}
 					}
 				}
+			case "assumeframe":
+				cur.AssumeFrame = true
 			case "safety":
 				cur.Safety = true
 			case "overflow":
